@@ -30,8 +30,9 @@ func init() {
 			stepOnly(c, so, search, 1, map[string]bool{"Step": true, "Backstep": true})
 			bal := &RuleResult{Rule: "BALANCE", Doc: "every searcher receives exactly as many Backstep as Step calls on every path to a return: a local stack is pushed once per Step pass, popped once per Backstep pass, and every return is guarded by the stack being empty", MinInst: 3}
 			ruleBalance(c, bal, "(*dawg.Dawg).Search", "Step", "Backstep")
-			nw := ruleNarrow(c, inFiles("dawg_search.go"))
-			mw := ruleMaskWidth(c, inFiles("dawg_search.go"))
+			searchFiles := filesOf(c, "(*dawg.Dawg).Search", "T:dawg.PatternSearcher", "T:dawg.AnagramSearcher", "dawg.NewPatternSearcher", "dawg.NewAnagramSearcher")
+			nw := ruleNarrow(c, searchFiles)
+			mw := ruleMaskWidth(c, searchFiles)
 			return []*RuleResult{pure, ro, so, bal, nw, mw}
 		},
 		controls: func(ctl *Ctx) []*RuleResult {
@@ -800,7 +801,21 @@ func backwardUntil(b *ssa.BasicBlock, i int, stop *ssa.BasicBlock, evAt map[ssa.
 // conversion to a narrower integer type is only harmless when the value provably fits. A node has
 // up to 256 links and a word any length, so a link number or depth squeezed into a byte wraps for
 // exactly the extreme inputs no test contains.
-func ruleNarrow(c *Ctx, files func(string) bool) *RuleResult {
+func ruleNarrow(c *Ctx, files func(string) bool) *RuleResult { return ruleNarrowWith(c, files, nil) }
+
+// nonNegativeOrder: the order N() and size M() of a graph reached through the Graph interface are
+// not negative (an assumption on implementations, stated in the evidence).
+func nonNegativeOrder(P *Prover, fn *ssa.Function) {
+	for _, b := range fn.Blocks {
+		for _, in := range b.Instrs {
+			if call, ok := in.(*ssa.Call); ok && call.Call.IsInvoke() && (call.Call.Method.Name() == "N" || call.Call.Method.Name() == "M") && len(call.Call.Args) == 0 {
+				P.global = append(P.global, P.poly(call).scale(-1))
+			}
+		}
+	}
+}
+
+func ruleNarrowWith(c *Ctx, files func(string) bool, setup func(P *Prover, fn *ssa.Function)) *RuleResult {
 	r := &RuleResult{Rule: "NARROW", Doc: "every conversion of an integer to a narrower integer type in the search and the searchers is of a value proved to fit", MinInst: 0}
 	n := 0
 	for _, fn := range c.Funcs {
@@ -828,6 +843,9 @@ func ruleNarrow(c *Ctx, files func(string) bool) *RuleResult {
 				}
 				if P == nil {
 					P = NewProver(c, fn)
+					if setup != nil {
+						setup(P, fn)
+					}
 				}
 				v := P.poly(cv.X)
 				src := c.srcAt(cv.Pos())
